@@ -29,5 +29,5 @@ SIZES = {"quick": (300, 3, 1500), "thorough": (4000, 15, 12000)}
 
 def run(ctx):
     rcommon.run_check(ctx, "C05", "Runner/Props_C05.v", SIZES,
-                      "C05 oracles: watchdog (Run returns and every goroutine ends within 4 s); a cycle reachable from the root => Run "
+                      "C05 oracles: watchdog (Run returns and every goroutine ends within 10 s); a cycle reachable from the root => Run "
                       "returns an error and a CyclicDependencyError was produced; acyclic => no CyclicDependencyError.")
